@@ -480,6 +480,26 @@ void h_add_frequency(void)
 }
 
 /* ------------------------------------------------------------- z0 functions */
+/*
+ * The vector handed to a z0 vector setter may be one the object itself
+ * returned (vnadata_get_fz0_vector: "use frequency g's impedances everywhere",
+ * "copy frequency g's impedances to frequency f"): the values it held on entry
+ * are what gets stored, also when the call switches the z0 mode and thereby
+ * frees the storage the pointer points into.
+ */
+#define OWN_VECTOR_SOURCE() \
+	IN(bool, own_vector); \
+	IN(int, g_src); \
+	const cell_t *src = vec; \
+	if (own_vector && g_src >= 0 && g_src < pre.freqs && ports > 0) { \
+	    src = vnadata_get_fz0_vector(vdp, g_src); \
+	    CHECK(src != NULL, "get_fz0_vector: a valid index gives the vector"); \
+	    for (int q = 0; q < VD_PA_MAX; ++q) \
+		if (q < ports) \
+		    vec[q] = pre.fz0 ? pre.fz0v[g_src][q] : pre.z0[q]; \
+	    REACH("the object's own vector as the source"); \
+	}
+
 void h_z0(void)
 {
     MK_VNADATA(vdip, a);
@@ -570,7 +590,8 @@ void h_z0(void)
 	break;
     }
     case 4: {				/* set_z0_vector */
-	int rc = vnadata_set_z0_vector(vdp, vec);
+	OWN_VECTOR_SOURCE();
+	int rc = vnadata_set_z0_vector(vdp, src);
 
 	CHECK(rc == 0, "set_z0_vector: accepted");
 	expect.fz0 = 0;
@@ -582,7 +603,8 @@ void h_z0(void)
 	break;
     }
     case 5: {				/* set_fz0_vector */
-	int rc = vnadata_set_fz0_vector(vdp, f, vec);
+	OWN_VECTOR_SOURCE();
+	int rc = vnadata_set_fz0_vector(vdp, f, src);
 
 	valid = f >= 0 && f < pre.freqs;
 	CHECK(rc == (valid ? 0 : -1),
